@@ -1,11 +1,44 @@
-//! C17: not built yet
+//! C17: shared subscriptions: exactly one member (S4)
+use super::s4common::{self, Plan};
 use super::{Meta, Prop};
 use crate::common::{Ctx, Stats};
+#[allow(unused_imports)]
+use crate::sub::s4drive::{base_profile, Stepping, Weights};
+#[allow(unused_imports)]
+use rumqttd::Strategy;
 
-fn run(_ctx: &Ctx) -> Stats {
-    let mut s = Stats::default();
-    s.inconclusive.push("check not built yet".into());
-    s
+pub fn plan() -> Plan {
+    let mut p = base_profile("c17-shared");
+    p.shared_pm = 650;
+    p.persistent_pm = 0;
+    p.clients = (3, 5);
+    p.filters = vec!["a", "a/b", "a/+", "b"];
+    p.strategies = vec![Strategy::RoundRobin, Strategy::Random, Strategy::Sticky];
+    p.w.subscribe = 12;
+    p.w.unsubscribe = 4;
+    p.w.link_drop = 3;
+    p.w.disconnect_pkt = 3;
+    p.w.connect = 8;
+    p.burst_pm = 120;
+    p.burst = (20, 150);
+    let mut single = p.clone();
+    single.name = "c17-single";
+    single.stepping = Stepping::Single;
+    let profiles = vec![p, single];
+    Plan {
+        profiles,
+        directed: vec![],
+        quick_histories: 500,
+        thorough_histories: 80000,
+    }
+}
+
+fn run(ctx: &Ctx) -> Stats {
+    s4common::run(ctx, &plan())
+}
+
+fn replay(ctx: &Ctx, doc: &serde_json::Value) -> Stats {
+    s4common::replay(ctx, &plan(), doc)
 }
 
 pub fn prop() -> Prop {
@@ -13,11 +46,11 @@ pub fn prop() -> Prop {
         id: "C17",
         meta: Meta {
             level: "exploration",
-            rule: "not built",
-            assumptions: &[],
-            floors: &[],
+            rule: "seeded histories with 2-4 group members joining, leaving and disconnecting between single publishes and bursts, per-member ack pacing, the three balancing strategies, QoS 0-2, members that also subscribe plainly; per group the members' shares must be pairwise disjoint, each in acceptance order, and complete at quiescent points while the group stayed non-empty. A case counts as distinct and non-trivial when its sequence of operation kinds is new and it reached at least one named corner state.",
+            assumptions: &["router stepped on one thread through verif hooks; link actors use the real LinkTx/LinkRx", "default segment sizes: backlog stays within retention"],
+            floors: &[("quiescent-point", 20), ("shared-forward", 200)],
         },
         run,
-        replay: None,
+        replay: Some(replay),
     }
 }
